@@ -88,7 +88,8 @@ Inductive mstate :=
 Inductive sstate :=
 | SRunning (k : nat)     (* incarnation k is inside Start() *)
 | SSleeping (k : nat)    (* Start() of incarnation k returned an error; the 10 s pause *)
-| SClosed.               (* Start() returned nil; sourceCh closed *)
+| SClosed                (* Start() returned nil; sourceCh closed *)
+| SDead.                 (* the process has exited: os.Exit(1) in prepareSource *)
 
 (* observable trace (what harness-owned nodes and sources can stamp), newest first *)
 Inductive tev :=
@@ -101,7 +102,8 @@ Inductive tev :=
 | TRet (n : nat) (it : item) (o : outcome)      (* ... returned *)
 | TCb (n : nat) (it : item) (o : outcome)       (* async callback for it fired from a foreign goroutine *)
 | TShutBegin (n : nat) | TShutEnd (n : nat)     (* node n's Shutdown() called / returned *)
-| TDone (clean : bool).                         (* Execute returned; clean = no shutdown timeout *)
+| TDone (clean : bool)                          (* Execute returned; clean = no shutdown timeout *)
+| TPrepFail (k : nat).                          (* Setup of incarnation k returned an error *)
 
 Record state := {
   nodes : list nstate;
@@ -246,7 +248,12 @@ Inductive action :=
 | OnceSkip (n w : nat)     (* ShutdownOnce.Do returns for a worker that was not first (blocks until the first is done) *)
 (* foreign goroutine completing an async event of node n *)
 | Callback (n : nat) (it : item) (o : outcome)
-| SendC (i : nat).         (* callback thread i makes its next delivery *)
+| SendC (i : nat)          (* callback thread i makes its next delivery *)
+(* Setup of the replacement source fails after the pause: prepareSource calls os.Exit(1).
+   The model deliberately OVER-approximates: after [SDead] the other goroutines may still step in the
+   model although the real process is gone; that is sound for every safety theorem (the real
+   behaviours are a prefix of the model's). *)
+| SrcSetupFail.
 
 Definition after_deliveries (pend : list (nat * item)) : wstate :=
   match pend with [] => WIdle | _ => WSend pend end.
@@ -438,6 +445,8 @@ Definition step (nt : net) (T : nat) (s : state) (a : action) : result :=
           end
       | _ => NotEnabled
       end
+  | SrcSetupFail =>
+      match src s with SSleeping k => Ok (log (set_src s SDead) [TPrepFail (S k)]) | _ => NotEnabled end
   end.
 
 Fixpoint run (nt : net) (T : nat) (s : state) (sch : list action) : result :=
